@@ -355,3 +355,21 @@ package clickhouse_planner
 //@   check min-over-time: result1 == nil && u.Func == "min_over_time" ==> typeis(val, "*sql.RawObject") && rawText(val) == "min(unwrap_1.value)"
 //@   check first-over-time: result1 == nil && u.Func == "first_over_time" ==> typeis(val, "*sql.RawObject") && rawText(val) == "argMin(unwrap_1.value, unwrap_1.timestamp_ns)"
 //@   check last-over-time: result1 == nil && u.Func == "last_over_time" ==> typeis(val, "*sql.RawObject") && rawText(val) == "argMax(unwrap_1.value, unwrap_1.timestamp_ns)"
+
+// `| regexp "..."`: the SQL pairs the i-th collected name with the i-th capture group,
+// and capture groups are numbered by their OPENING parenthesis - so a group's own name
+// (or the empty slot of an unnamed group) is in the list before the names of the
+// groups nested inside it are collected.
+//@ func (*regexAST).collectGroupNames
+//@   modifies allocated
+//@   ensures only-appends: len(result) >= len(init)
+//@ func (*brackPart).collectGroupNames [C07]
+//@   flag checks=-assert,-index
+//@   modifies allocated
+//@   at regexAST).collectGroupNames$ own-name-before-the-nested-ones: len(arg0) == old(len(init)) + 1 && arg0[old(len(init))] == b.Name
+//@   ensures only-appends: len(result) >= old(len(init)) + 1
+//@ func (*regexPart).collectGroupNames [C07]
+//@   flag checks=-assert,-index
+//@   modifies allocated
+//@   at regexAST).collectGroupNames$ unnamed-group-takes-its-slot-first: len(arg0) == old(len(init)) + 1 && arg0[old(len(init))] == ""
+//@   ensures only-appends: len(result) >= old(len(init))
